@@ -271,6 +271,7 @@ def gen_plan(seed, index, tier):
                     progress_updates=rng.choice([None, None, 0.5]),
                     prior_fits=rng.choice([0, 0, 0, 1, 1, 2]), warm_start=(rng.random() < 0.5),
                     cb_peek=[rng.random() < 0.5 for _ in cb_returns], b_peek=rng.random() < 0.3,
+                    classes_order=rng.choice(["sorted", "sorted", "reversed", "rotated"]),
                     public=rng.random() < 0.35)
         if "bn" in plan["pm"] + plan["am"] and plan["prior_fits"] and not plan["warm_start"]:
             plan["warm_start"] = True
@@ -584,7 +585,13 @@ def _exec_equiv(plan, ctx):
     for j, (lo, hi) in enumerate(slices * passes):
         kw = {"sensitive_features": a[lo:hi]}
         if j == 0 and ycls is not None:
-            kw["classes"] = np.array(ycls)
+            order = plan.get("classes_order", "sorted")
+            cl = list(ycls)
+            if order == "reversed":
+                cl = cl[::-1]
+            elif order == "rotated":
+                cl = cl[1:] + cl[:1]
+            kw["classes"] = np.array(cl)  # "list of all the classes": the documentation fixes no order
         with ctx.clock_installed():
             ok, ret, site = ctx.call(B.partial_fit, X[lo:hi], y[lo:hi], **kw)
         ctx.ops += 1
@@ -627,6 +634,12 @@ def _exec_equiv(plan, ctx):
     if not np.allclose(ra, rb, atol=1e-6, rtol=0):
         ctx.fail("C17.equiv.raw_predict", "_raw_predict differs between fit and partial_fit histories")
     _check_label_space(ctx, A, Xq, plan["ykind"], y, "equiv")
+    _check_label_space(ctx, B, Xq, plan["ykind"], y, "equiv")
+    okA, predA, _ = ctx.call(A.predict, Xq)
+    okB, predB, _ = ctx.call(B.predict, Xq)
+    if okA and okB and not np.array_equal(np.asarray(predA), np.asarray(predB)):
+        ctx.fail("C17.equiv.predict", "predict differs between the fit history and the equivalent partial_fit history "
+                 f"although the raw outputs agree (classes passed to partial_fit in {plan.get('classes_order', 'sorted')} order)")
     ctx.event("equiv_done", steps=len(slices), maxd=maxd, raw=ra)
     bs = n if plan["batch_size"] == -1 else plan["batch_size"]
     ctx.state({"mode": "equiv", "batches": min(ceil(n / bs), 6), "epochs": plan["epochs"], "reason": reason,
@@ -785,6 +798,8 @@ def shrink_candidates(plan):
                 yield mod(cb_peek=[])
             if p.get("b_peek"):
                 yield mod(b_peek=False)
+            if p.get("classes_order", "sorted") != "sorted":
+                yield mod(classes_order="sorted")
             if any(t in ("bn", "dropout") for t in p["pm"]):
                 yield mod(pm=[t for t in p["pm"] if t not in ("bn", "dropout")])
             if p["pm"]:
